@@ -32,7 +32,11 @@ def gen(rng, tier):
            'pct_depth': rng.randrange(1, 4),
            'lat': rng.randrange(2),
            'fault': rng.choice([None, None, 'sever_reconnect', 'sever_final',
-                                'sdisc', 'sever_reconnect']),
+                                'sdisc', 'sever_reconnect',
+                                'sever_slow_reconnect']),
+           # the server's handler takes a while before it answers (so that a
+           # call() can be waiting for its answer when the connection goes)
+           'slow_ping': rng.random() < 0.4,
            # the server greets every (re)connected client with an event that
            # travels right behind the CONNECT reply
            'welcome': rng.random() < 0.5,
@@ -59,7 +63,13 @@ def gen(rng, tier):
         tf = round(rng.choice([0.05, 0.2, 0.5, 1.2]), 3)
         producer.insert(rng.randrange(len(producer) + 1),
                         [tf, cfg['fault'], 0])
-        if rng.random() < 0.5:
+        if cfg['fault'] == 'sever_slow_reconnect' and rng.random() < 0.7:
+            # a call() is waiting for its answer when the connection goes,
+            # and times out while the client is still trying to reconnect
+            cfg['slow_ping'] = True
+            consumer[0:0] = [['sleep_to', round(max(0.0, tf - rng.choice(
+                [0.001, 0.01, 0.03])), 4)], ['call']]
+        elif rng.random() < 0.5:
             # aim emit()/call() at the instant the connection goes away
             if rng.random() < 0.5:
                 aim = [['sleep_to', round(tf + rng.choice(
@@ -136,12 +146,17 @@ def _run(case, cfg, w):
             w.after(0.0, lambda: produce('emit', 1))
         if label[3] == 'ping':
             got_by_server.append(args[1:])
-            return [('ret', ['pong', args[1] if len(args) > 1 else None])]
+            ret = ('ret', ['pong', args[1] if len(args) > 1 else None])
+            if cfg.get('slow_ping'):
+                return [('pause', w.choices.pick('app', (0.0, 0.05, 0.3),
+                                                 'slowping')), ret]
+            return [ret]
         return [('ret', None)]
     for evn in ('connect', 'disconnect', 'ping'):
         srv.on(evn, namespace=NS,
                handler=w.make_handler(('s', 'func', NS, evn), splan,
-                                      coroutine=False))
+                                      coroutine=is_async and evn == 'ping'
+                                      and bool(cfg.get('slow_ping'))))
     fault = cfg['fault']
     attempts = 1 if fault == 'sever_final' else 0
     ckw = dict(reconnection=True, reconnection_delay=0.2,
@@ -207,6 +222,8 @@ def _run(case, cfg, w):
             rec.add('ce_wait_enter', step=cur_step[0])
             r = _orig_wait(*a, **k)
             rec.add('ce_wait_return', step=cur_step[0])
+            # (another thread may run between the wait and what follows it)
+            kernel.yield_point('ce.wait.returned')
             return r
     sc.connected_event.wait = _wait
     t0 = w.now()
@@ -235,6 +252,14 @@ def _run(case, cfg, w):
                 if not cn.severed:
                     cn.sever(0.0, 0.0)
             rec.count('fault.sever_reconnect')
+        elif kind == 'sever_slow_reconnect':
+            # nothing answers for a while: several attempts fail first
+            t_up = w.now() + 3.0
+            w.net.refuse_hook = lambda name, n: w.now() < t_up
+            for cn in w.net.conns:
+                if not cn.severed:
+                    cn.sever(0.0, 0.0)
+            rec.count('fault.sever_slow_reconnect')
         elif kind == 'sever_final':
             w.net.refuse_hook = lambda name, n: True
             for cn in w.net.conns:
